@@ -1018,6 +1018,11 @@ class TorControlProtocol(LineOnlyReceiver):
 
     def _accumulate_multi_response(self, line):
         "for FSM"
+        # control-spec 2.3: a data line starting with "." was sent
+        # with an extra leading "." (the lone "." that ends the block
+        # never gets here)
+        if line.startswith('.'):
+            line = line[1:]
         if self._wants_lines():
             self.command[2](line)
 
